@@ -59,11 +59,11 @@ type obsFwd struct {
 }
 
 type observation struct {
-	Ret     string            `json:"ret"` // ok | write | panic:<msg> | other:<msg>
-	Events  []obsEvent        `json:"events"`
-	Fwds    []obsFwd          `json:"forwards"`
-	Metrics map[string]int    `json:"metrics"` // "method/outcome" -> delta
-	T0, T1  time.Time         `json:"-"`
+	Ret     string         `json:"ret"` // ok | write | panic:<msg> | other:<msg>
+	Events  []obsEvent     `json:"events"`
+	Fwds    []obsFwd       `json:"forwards"`
+	Metrics map[string]int `json:"metrics"` // "method/outcome" -> delta
+	T0, T1  time.Time      `json:"-"`
 }
 
 type encRec struct {
@@ -400,6 +400,7 @@ func main() {
 	}
 	if *prop == "C07" {
 		auditFramingChecks(sum, r, *n/2)
+		fifoLevel(sum, r, *out, 1+*n/60)
 	}
 	cases.Flush()
 	sum.CaseFiles = cases.Files
@@ -479,8 +480,20 @@ func doReplay(path, prop string) int {
 	var rp struct {
 		Property string `json:"property"`
 		Replay   struct {
-			Case *caseDesc `json:"case"`
+			Case *caseDesc    `json:"case"`
+			Fifo []fifoRecord `json:"fifo_records"`
 		} `json:"replay"`
+	}
+	if err := json.Unmarshal(raw, &rp); err == nil && len(rp.Replay.Fifo) > 0 {
+		dir, _ := os.MkdirTemp("", "fiforeplay")
+		defer os.RemoveAll(dir)
+		got, want, herr := runFifo(rp.Replay.Fifo, hutil.NewRand(1), dir)
+		if herr != "" || strings.Join(got, "\n") != strings.Join(want, "\n") {
+			fmt.Println("REPRODUCED framed:fifo: records through the FIFO and handed over directly differ", herr)
+			return 1
+		}
+		fmt.Println("not reproduced")
+		return 0
 	}
 	if err := json.Unmarshal(raw, &rp); err != nil || rp.Replay.Case == nil {
 		fmt.Println("replay file carries no case (no failing input was found)")
